@@ -3,7 +3,7 @@
 From Coq Require Import ZArith List Bool NArith Lia.
 Import ListNotations.
 Require Import PV.Core.Obj PV.Core.Val PV.Core.Cls PV.Core.Member PV.Core.CanAssignK PV.Core.C03Run.
-Require Import PV.Proofs.C03Main PV.Gen.ClassTable.
+Require Import PV.Proofs.C03Main PV.Proofs.C03Okb PV.Gen.ClassTable.
 
 Definition c03_full_statement : Prop := forall T o, ca table T o = member table T o.
 
@@ -98,3 +98,15 @@ Proof.
     + apply ok_typed. destruct He as [<-|[<-|[<-|[]]]]; vm_compute; reflexivity.
     + apply ok_known.
 Qed.
+
+(* the decision procedure accepts non-trivial pairs on the generated table, incl. a TypedDict *)
+Definition ex_td := VNode (TTypedDict [(97%N, (true, false)); (98%N, (false, false))] false false)
+                          [VUnion [t_int; t_str]; t_int; t_str].             (* TypedDict({"a": int, "b": NotRequired[str]}) *)
+Definition ex_td_obj := ODict 1 [(OStr [97%N], OBool true)].
+Definition ex_T2 := VUnion [VNode (TGeneric c_dict) [t_str; tup2 t_int (VLeaf (LKnown ONone))]; ex_td].
+Definition ex_o2 := ODict 2 [(OStr [107%N], OTuple 0 [OInt 1; ONone])].
+
+Lemma okb_examples :
+  okb table ex_T ex_o = true /\ okb table ex_td ex_td_obj = true /\ ca table ex_td ex_td_obj = true /\
+  okb table ex_T2 ex_o2 = true /\ member table ex_T2 ex_o2 = true.
+Proof. vm_compute. repeat split; reflexivity. Qed.
